@@ -37,6 +37,7 @@ func init() {
 			{ID: "C01.R7", Doc: "SplitData yields complementary slices of one base; rawWriteLocked/SplitN set Done from the remainder of the same split", Run: c01r7},
 			{ID: "C01.R8", Doc: "Writer.Empty() agrees with the buffer: abstract (buffer emptiness, flag) pair is consistent at every return of every exported Writer method", Run: writerFlagAgreement},
 			{ID: "C01.R9", Doc: "the marshal buffer Stream.wbuf and every slice aliasing it are used only under Stream.write", Run: c01r9},
+			{ID: "C01.S1", Doc: "bytes the transport returns together with an error are parsed before the error is surfaced (nothing already received is dropped)", Alias: "C05.R8"},
 		},
 	})
 }
@@ -197,24 +198,25 @@ func c01r2(c *an.Ctx) {
 	}
 	c.Check(wrote, "(*Stream).MsgSend | calls rawWriteLocked", c.P.Pos(msgSend.Pos()), "message is written", "MsgSend no longer writes the message through rawWriteLocked")
 	nret := 0
-	for _, ret := range an.Returns(msgSend) {
-		if len(ret.Block().Preds) == 0 && ret.Block() != msgSend.Blocks[0] {
-			continue // recover block
-		}
-		for _, v := range returnedValues(ret, 0) {
-			nret++
-			key := fmt.Sprintf("(*Stream).MsgSend | return %s", describeRet(v))
-			switch {
-			case v == nil || an.IsNilConst(v):
-				_, ok := guardedByFieldLoad(ret.Block(), manual, true)
-				c.Check(ok, key, c.At(ret), "nil only under ManualFlush", "MsgSend can return nil without flushing although ManualFlush is false")
-			case isCallResult(v, rawFlush):
-				c.Ok(key, c.At(ret), "delegates to rawFlushLocked")
-			default:
-				src := storeBlock(ret, v)
-				ok := provablyNonNil(v, src, 0)
-				c.Check(ok, key, c.At(ret), "non-nil error return", "MsgSend returns a value that may be nil on a path that has not flushed: "+an.R(v))
+	for _, rc := range an.ReturnCases(msgSend) {
+		ret := rc.Ret
+		v := rc.Vals[0]
+		nret++
+		key := fmt.Sprintf("(*Stream).MsgSend | return %s", describeRet(v))
+		switch {
+		case v == nil || an.IsNilConst(v):
+			ok := false
+			for _, g := range rc.Guards {
+				if g.True && isLoadOfField(g.Cond, manual) {
+					ok = true
+				}
 			}
+			c.Check(ok, key, c.At(ret), "nil only under ManualFlush", "MsgSend can return nil without flushing although ManualFlush is false")
+		case isCallResult(v, rawFlush):
+			c.Ok(key, c.At(ret), "delegates to rawFlushLocked")
+		default:
+			ok := provablyNonNilCase(v, rc)
+			c.Check(ok, key, c.At(ret), "non-nil error return", "MsgSend returns a value that may be nil on a path that has not flushed: "+an.R(v))
 		}
 	}
 	c.Floor("MsgSend return values", 1, nret)
@@ -705,38 +707,45 @@ func c01r5(c *an.Ctx) {
 
 	// (a) nil-error returns
 	n := 0
-	for _, ret := range an.Returns(fn) {
-		vals := returnedValues(ret, 1)
-		for _, v := range vals {
-			if !(v == nil || an.IsNilConst(v)) {
-				// error returns must carry a zero packet: "partial packets are never surfaced"
-				if !provablyNonNil(v, ret.Block(), 0) {
-					c.Bad("(*Reader).ReadPacketUsing | return with possibly-nil error "+an.Render(v, 3), c.At(ret), "cannot show the error is non-nil")
-					continue
-				}
-				zero := returnsZeroPacket(ret)
-				c.Check(zero, "(*Reader).ReadPacketUsing | error return carries zero Packet", c.At(ret), "", "an error return surfaces partial packet data")
+	for _, rc := range an.ReturnCases(fn) {
+		ret := rc.Ret
+		if len(rc.Vals) < 2 {
+			continue
+		}
+		v := rc.Vals[1]
+		if !(v == nil || an.IsNilConst(v)) {
+			// error returns must carry a zero packet: "partial packets are never surfaced"
+			if !provablyNonNilCase(v, rc) {
+				c.Bad("(*Reader).ReadPacketUsing | return with possibly-nil error "+an.Render(v, 3), c.At(ret), "cannot show the error is non-nil")
 				continue
 			}
-			n++
-			_, okDone := guardedByFieldLoad(ret.Block(), frDone, true)
-			c.Check(okDone, "(*Reader).ReadPacketUsing | packet returned only on a done frame", c.At(ret), "", "a packet is surfaced before its final (done) frame")
-			// id bump: a store r.id.Message = r.id.Message + 1 dominates the return within the done branch
-			bump := false
-			for _, st := range fieldStores(fn, idMsg) {
-				p := an.PathOf(st.Addr)
-				if len(p.Fields) >= 2 && p.Fields[len(p.Fields)-2].Origin() == rID.Origin() && an.InstrDominates(st, ret) {
-					if b, ok := st.Val.(*ssa.BinOp); ok && b.Op == token.ADD {
-						if k, ok := an.ConstInt(b.Y); ok && k == 1 && isLoadOfField(b.X, idMsg) {
-							if _, g := guardedByFieldLoad(st.Block(), frDone, true); g {
-								bump = true
-							}
+			zero := isZeroAggregate(rc.Vals[0])
+			c.Check(zero, "(*Reader).ReadPacketUsing | error return carries zero Packet", c.At(ret), "", "an error return surfaces partial packet data")
+			continue
+		}
+		n++
+		okDone := false
+		for _, g := range rc.Guards {
+			if g.True && isLoadOfField(g.Cond, frDone) {
+				okDone = true
+			}
+		}
+		c.Check(okDone, "(*Reader).ReadPacketUsing | packet returned only on a done frame", c.At(ret), "", "a packet is surfaced before its final (done) frame")
+		// id bump: a store r.id.Message = r.id.Message + 1 dominates the return within the done branch
+		bump := false
+		for _, st := range fieldStores(fn, idMsg) {
+			p := an.PathOf(st.Addr)
+			if len(p.Fields) >= 2 && p.Fields[len(p.Fields)-2].Origin() == rID.Origin() && (an.InstrDominates(st, ret) || an.DominatesEnd(st.Block(), rc.At, 0)) {
+				if b, ok := st.Val.(*ssa.BinOp); ok && b.Op == token.ADD {
+					if k, ok := an.ConstInt(b.Y); ok && k == 1 && isLoadOfField(b.X, idMsg) {
+						if _, g := guardedByFieldLoad(st.Block(), frDone, true); g {
+							bump = true
 						}
 					}
 				}
 			}
-			c.Check(bump, "(*Reader).ReadPacketUsing | message id bumped before returning a packet", c.At(ret), "", "the reader does not advance its id after a completed packet: a replayed frame with the same id would be accepted again")
 		}
+		c.Check(bump, "(*Reader).ReadPacketUsing | message id bumped before returning a packet", c.At(ret), "", "the reader does not advance its id after a completed packet: a replayed frame with the same id would be accepted again")
 	}
 	c.Floor("nil-error returns in ReadPacketUsing", 1, n)
 
@@ -802,6 +811,16 @@ func c01r5(c *an.Ctx) {
 		}
 		c.Check(okKind, "(*Reader).ReadPacketUsing | append only after packet reset or kind-equality test", c.At(ap), "", "a frame can be appended to a packet of a different kind")
 	}
+}
+
+// isZeroAggregate: the value is the zero value of its (aggregate) type.
+func isZeroAggregate(v ssa.Value) bool {
+	if v == nil {
+		return true
+	}
+	v = an.Resolve(v)
+	cst, ok := v.(*ssa.Const)
+	return ok && cst.Value == nil
 }
 
 func returnsZeroPacket(ret *ssa.Return) bool {
